@@ -1,8 +1,12 @@
 (* C11 - An emitted SKR reads back identically, fits the schema; no truncation loads.
    Proved: (a) every whole-second policy duration the writer emits is read back exactly (all carries);
    (d) a document cut before the closing tag of its outermost element never parses.
-   The full string-level round trip skr_roundtrip_full is NOT proved; it is covered by correspondence
-   (skr_to_xml -> response_from_xml on generated responses, ElementTree, schema checker, every prefix). *)
+   (e) document level: the element structure the writer spells out (Model.SkrDoc.skr_val, built with the reader's own _store_element)
+   is read by the loader (response_of_val) as the same response - every bundle, key, signature, both policies, all numbers, times and
+   durations - for every well-formed response of any size (C11_skr_roundtrip).
+   NOT proved: that printing that structure as text and reading the text gives the structure back (the two text-level halves are
+   Model.Xml's reader - proved total and order-independent - and the writer's f-strings, tied by Bridge11Doc and by correspondence:
+   skr_to_xml -> parse_ksr / response_from_xml on generated responses, ElementTree, schema checker, every prefix). *)
 From Coq Require Import String.
 From KV Require Import Base.Prelude Base.Exn Base.Bytes Model.Data Model.Duration Model.Xml
   Proofs.DurationProofs Proofs.XmlProofs Proofs.Bridge11.
@@ -45,3 +49,25 @@ Theorem C11_gen_output_shapes :
   Gen.Output.duration_head_tests = ["not duration"; "not duration.startswith('P')"]%string.
 Proof. exact gen_output_shapes. Qed.
 Print Assumptions C11_gen_output_shapes.
+
+(* ---- document level ---- *)
+From KV Require Import Model.Xml Model.Datetime Model.SkrDoc Proofs.SkrDocProofs Proofs.Bridge11Doc.
+
+Theorem C11_skr_roundtrip : forall b64 r d, wf_response b64 r -> skr_val r = OK d -> response_of_val b64 d = OK (canon_response r).
+Proof. exact skr_roundtrip. Qed.
+Print Assumptions C11_skr_roundtrip.
+
+Theorem C11_skr_roundtrip_nothing_lost : forall b64 r d b, wf_response b64 r -> skr_val r = OK d -> In b (rs_bundles r) ->
+  exists r' b', response_of_val b64 d = OK r' /\ In b' (rs_bundles r') /\ b_id b' = b_id b /\
+    (forall k, In k (b_keys b') <-> In k (b_keys b)) /\ b_sigs b' = b_sigs b /\ rs_ksk r' = rs_ksk r /\ rs_zsk r' = rs_zsk r.
+Proof. exact skr_roundtrip_keys. Qed.
+Print Assumptions C11_skr_roundtrip_nothing_lost.
+
+(* the reader's dictionary: a child name that occurs once yields the child, one that occurs n times its occurrences in document order *)
+Theorem C11_store_collects_in_order : forall cs, Forall (fun kv => nl (snd kv)) cs -> forall d0 k, collect (build cs d0) k = (collect d0 k ++ vals_named k cs)%list.
+Proof. exact build_collect. Qed.
+Print Assumptions C11_store_collects_in_order.
+
+Theorem C11_int_reads_back : forall n, 0 <= n -> py_int (dec n) = Some n.
+Proof. exact py_int_dec. Qed.
+Print Assumptions C11_int_reads_back.
